@@ -71,7 +71,10 @@ def build(kind, inp, T, limits, fn=post):
         ch.steps = 2
         return ch
     if kind == "EnsembleSampler":
-        return EnsembleSampler(posterior=fn, starting_positions=inp["start"], bounds=b, display_progress=False)
+        e = EnsembleSampler(posterior=fn, starting_positions=inp["start"], bounds=b, display_progress=False)
+        if limits == "max-attempts-1":
+            e.max_attempts = 1  # every rejected proposal is a failed walker update: position and probability must both stay
+        return e
     raise KeyError(kind)
 
 
@@ -264,8 +267,8 @@ def run(ck):
     bound = 2 if ck.quick else 3
     cases = []
     for kind in SAMPLERS:
-        for limits in (None, "box", "int-dtype"):
-            if limits == "int-dtype" and kind != "EnsembleSampler":
+        for limits in (None, "box", "int-dtype", "max-attempts-1"):
+            if limits in ("int-dtype", "max-attempts-1") and kind != "EnsembleSampler":
                 continue
             for T in (1.0, 2.5):
                 if kind == "EnsembleSampler" and T != 1.0:
